@@ -26,7 +26,10 @@ LEVEL_TEXT = ('Exploration with an exhaustive grid: 2^4 FIN/RSV combinations x 1
               'several keys} x payload lengths {0..130, 65530..65540} (thorough: complete; quick: all flag/opcode '
               'combinations at the threshold lengths), sampled larger payloads, several kinds of trailing bytes. '
               'Contracts compare every build() with an independent RFC 6455 encoder and every parse() with the fields '
-              'that were encoded.')
+              'that were encoded. The consumer of parse() remainders is driven too: a websocket route on the real web '
+              'server (step rig) receives groups of 1..8 frames per read; per read, as the route saw it, the frames '
+              'delivered to on_websocket_message must equal an independent decoding of that read, and the 101 reply '
+              'must carry the RFC accept token.')
 LEVEL_NOTE = 'Trusted: the reference encoder in this file (written from RFC 6455 5.2, validated against the RFC accept-token vector and a hand-encoded frame).'
 TECHNIQUE = 'runtime contracts (icontract postconditions) on WebsocketFrame.build/parse/key_to_accept vs an independent RFC 6455 codec'
 RULE = ('case = (payload length, masking variant, trailing-bytes kind) over a block of flag x opcode combinations; '
@@ -98,6 +101,16 @@ _expect: Dict[str, Any] = {}
 def parse_restores(self: Any, raw: bytes, result: bytes) -> bool:
     EVAL['parse'] += 1
     e = _expect
+    if 'free' in e:
+        # called from inside the product (the web server's frame loop): judged against the independent decoder, recorded
+        # rather than raised so that the loop under observation is not cut short by the observer
+        frames, _tail = ref_decode(raw, limit=1)
+        if frames:
+            fr = frames[0]
+            good = ((self.fin, self.rsv1, self.rsv2, self.rsv3, self.opcode, self.data or b'') == fr[:6] and result == raw[fr[6]:])
+            if not good:
+                e['free'].append({'raw_head': raw[:16], 'len': len(raw)})
+        return True
     ok = (_fields(self) == e['fields'] and (self.data or b'') == e['payload'] and result == e['trail']
           and self.payload_length == len(e['payload']))
     if e['fields'][5]:
@@ -177,7 +190,151 @@ def run_sequence(case: Dict[str, Any]) -> Dict[str, Any]:
             'obs': obs, 'sets': {'lengths': set(lens)}, 'sample': {'kind': kind, 'lens': lens}}
 
 
+def ref_decode(buf: bytes, limit: int = 0) -> Tuple[List[Tuple[Any, ...]], bytes]:
+    """Independent RFC 6455 5.2 decoder: (frames, undecodable tail).  frame = (fin, r1, r2, r3, opcode, payload, size on the wire)."""
+    out: List[Tuple[Any, ...]] = []
+    cur = 0
+    while cur < len(buf) and not (limit and len(out) >= limit):
+        if len(buf) - cur < 2:
+            break
+        b0, b1 = buf[cur], buf[cur + 1]
+        n = b1 & 0x7f
+        hdr = 2
+        if n == 126:
+            if len(buf) - cur < 4:
+                break
+            n = int.from_bytes(buf[cur + 2:cur + 4], 'big')
+            hdr = 4
+        elif n == 127:
+            if len(buf) - cur < 10:
+                break
+            n = int.from_bytes(buf[cur + 2:cur + 10], 'big')
+            hdr = 10
+        key = None
+        if b1 & 0x80:
+            key = buf[cur + hdr:cur + hdr + 4]
+            hdr += 4
+        if len(buf) - cur < hdr + n:
+            break
+        payload = buf[cur + hdr:cur + hdr + n]
+        if key is not None:
+            payload = xor_mask(payload, key)
+        out.append((bool(b0 & 0x80), bool(b0 & 0x40), bool(b0 & 0x20), bool(b0 & 0x10), b0 & 0x0f, payload, hdr + n))
+        cur += hdr + n
+    return out, buf[cur:]
+
+
+_WEB: Dict[str, Any] = {'reads': []}
+
+
+def _web_plugin() -> Any:
+    from proxy.http.server import HttpWebServerBasePlugin, httpProtocolTypes
+
+    class WsRecorder(HttpWebServerBasePlugin):
+        """A websocket route: records every read handed to it and every frame delivered to it."""
+
+        def routes(self) -> List[Tuple[int, str]]:
+            return [(httpProtocolTypes.WEBSOCKET, r'/ws$')]
+
+        def handle_request(self, request: Any) -> None:
+            pass
+
+        def on_websocket_open(self) -> None:
+            _WEB['open'] = _WEB.get('open', 0) + 1
+
+        def on_client_data(self, request: Any, raw: memoryview) -> Optional[memoryview]:
+            _WEB['reads'].append([bytes(raw), []])
+            return raw
+
+        def on_websocket_message(self, frame: WebsocketFrame) -> None:
+            if _WEB['reads']:
+                _WEB['reads'][-1][1].append((frame.fin, frame.rsv1, frame.rsv2, frame.rsv3, frame.opcode, bytes(frame.data or b'')))
+            self.client.queue(memoryview(WebsocketFrame.text(b'ack')))
+    return WsRecorder
+
+
+def run_web(case: Dict[str, Any]) -> Dict[str, Any]:
+    """The consumer of parse()'s remainder: the web server hands every frame of a read to the route, one call per frame, in
+    order, nothing skipped and nothing decoded twice.  Judged per read as the route saw it (on_client_data), against the
+    independent decoder; a read that does not consist of whole frames (the kernel split a group) ends the judged part."""
+    from rig.steprig import StepRig, make_flags, LoopDied
+    install()
+    rng = random.Random('c16web:%s:%s' % (case['seed'], case['i']))
+    viol: Dict[str, Dict[str, Any]] = {}
+    obs: Dict[str, int] = {'web_cases': 1}
+    if 'plugin' not in _WEB:
+        _WEB['plugin'] = _web_plugin()
+    flags = make_flags(['--enable-web-server'], plugins=[_WEB['plugin']], cache_key='c16web')
+    _WEB['reads'] = []
+    _expect.clear()
+    _expect['free'] = []
+    rig = StepRig(flags, 'local')
+    try:
+        c = rig.add_client(case.get('transport', 'unix'))
+        key = base64.b64encode(bytes(rng.getrandbits(8) for _ in range(16)))
+        hs = [b'GET /ws HTTP/1.1', b'Host: ws.test', b'Upgrade: ' + rng.choice([b'websocket', b'WebSocket']), b'Connection: Upgrade',
+              b'Sec-WebSocket-Key: ' + key, b'Sec-WebSocket-Version: 13']
+        c.send(b'\r\n'.join(hs) + b'\r\n\r\n')
+        rig.until(lambda: b'\r\n\r\n' in c.rx or c.ended, [c], idle_timeout=0.3)
+        head = bytes(c.rx).split(b'\r\n\r\n')[0]
+        want = base64.b64encode(hashlib.sha1(key + GUID).digest())
+        got = [ln.split(b':', 1)[1].strip() for ln in head.split(b'\r\n')[1:] if ln.lower().startswith(b'sec-websocket-accept:')]
+        if not head.startswith(b'HTTP/1.1 101') or got != [want]:
+            viol['web|handshake-accept-token-differs-from-rfc'] = {'head': head[:200], 'want': want}
+        else:
+            obs['web_handshakes'] = 1
+            sent = 0
+            for g, group in enumerate(case['groups']):
+                wire = b''
+                for n in group:
+                    b0 = rng.randrange(256)
+                    if (b0 & 0x0f) == 8:
+                        b0 ^= 0x01          # a close frame ends the conversation; every other opcode is delivered
+                    payload = bytes(rng.getrandbits(8) for _ in range(min(n, 64)))
+                    payload = (payload * (n // max(1, len(payload)) + 1))[:n] if n else b''
+                    k = bytes(rng.getrandbits(8) for _ in range(4)) if rng.random() < 0.8 else None
+                    wire += ref_encode(bool(b0 & 0x80), bool(b0 & 0x40), bool(b0 & 0x20), bool(b0 & 0x10), b0 & 0x0f, k is not None, k, payload)
+                nreads = len(_WEB['reads'])
+                if c.send(wire) != len(wire):
+                    obs['web_groups_not_sent_whole'] = obs.get('web_groups_not_sent_whole', 0) + 1
+                    break
+                sent += len(wire)
+                rig.until(lambda: sum(len(r[0]) for r in _WEB['reads'][nreads:]) >= len(wire) or c.ended, [c], idle_timeout=0.3)
+                if c.ended:
+                    break
+            for ri, (raw, delivered) in enumerate(_WEB['reads']):
+                frames, tail = ref_decode(raw)
+                if tail:
+                    obs['web_reads_not_frame_aligned'] = obs.get('web_reads_not_frame_aligned', 0) + 1
+                    break
+                obs['web_reads_judged'] = obs.get('web_reads_judged', 0) + 1
+                obs['web_frames_judged'] = obs.get('web_frames_judged', 0) + len(frames)
+                obs['web_frames_per_read:%s' % ('1' if len(frames) == 1 else '2' if len(frames) == 2 else '3+')] = \
+                    obs.get('web_frames_per_read:%s' % ('1' if len(frames) == 1 else '2' if len(frames) == 2 else '3+'), 0) + 1
+                if delivered != [f[:6] for f in frames]:
+                    kind = 'fewer' if len(delivered) < len(frames) else 'more' if len(delivered) > len(frames) else 'different'
+                    viol.setdefault('web|frames-delivered-to-route-differ-from-frames-in-read|%s' % kind,
+                                    {'read': ri, 'frames_in_read': len(frames), 'delivered': len(delivered), 'lens': [len(f[5]) for f in frames],
+                                     'delivered_lens': [len(f[5]) for f in delivered], 'groups': case['groups']})
+                    break
+            if c.ended and 'web|frames-delivered-to-route-differ-from-frames-in-read' not in ''.join(viol):
+                viol.setdefault('web|connection-ended-on-well-formed-frames', {'groups': case['groups'], 'reads': len(_WEB['reads'])})
+        if _expect['free']:
+            viol.setdefault('web|parse-inside-frame-loop-differs-from-reference', {'first': _expect['free'][0], 'groups': case['groups']})
+    except LoopDied as e:
+        viol['web|loop-died:%s' % e.where()] = {'tb': e.tb[-800:], 'groups': case['groups']}
+    finally:
+        rig.close()
+        _expect.clear()
+    obs.update({'contract_evals:build': EVAL['build'], 'contract_evals:parse': EVAL['parse'], 'contract_evals:accept': EVAL['accept']})
+    EVAL.update(build=0, parse=0, accept=0)
+    return {'viol': [{'key': k, 'detail': d} for k, d in viol.items()], 'sig': 'web/%s' % (case['groups'],), 'nontrivial': True,
+            'obs': obs, 'sets': {'lengths': set(n for g in case['groups'] for n in g)}, 'sample': {'kind': 'web', 'groups': case['groups']}}
+
+
 def run_case(case: Dict[str, Any]) -> Dict[str, Any]:
+    if case.get('kind') == 'web':
+        return run_web(case)
     if case.get('kind'):
         return run_sequence(case)
     install()
@@ -274,6 +431,20 @@ def cases(tier: str, seed: int):
         i += 1
         yield {'seed': seed, 'i': i, 'kind': ['text', 'reuse-build', 'reuse-parse'][k % 3],
                'lens': [srng.choice(pool) if srng.random() < 0.7 else srng.randint(0, 400) for _ in range(srng.randint(2, 8))]}
+    wrng = random.Random('c16web:%d' % seed)
+    wpool = [0, 0, 1, 2, 5, 32, 124, 125, 126, 127, 128, 129, 300, 1000]
+    for k in range(60 if tier == 'quick' else 1500):
+        i += 1
+        groups = []
+        for _ in range(wrng.randint(1, 5)):
+            if wrng.random() < 0.1:
+                groups.append([wrng.choice([65535, 65536, 65537, 70000])] + [wrng.choice(wpool) for _ in range(wrng.randint(0, 2))])
+            else:
+                groups.append([wrng.choice(wpool) if wrng.random() < 0.8 else wrng.randint(0, 3000) for _ in range(wrng.choice([1, 2, 3, 3, 4, 5, 8]))])
+        if k % 5 == 0:
+            n = wrng.choice(wpool)
+            groups.append([n] * wrng.choice([3, 4, 6]))       # equal frames back to back
+        yield {'seed': seed, 'i': i, 'kind': 'web', 'groups': groups, 'transport': ['unix', 'tcp'][k % 2]}
     rng = random.Random('c16big:%d' % seed)
     for _ in range(4 if tier == 'quick' else 60):
         i += 1
@@ -285,7 +456,8 @@ def floors(tier: str) -> Dict[str, int]:
     return {'contract_evals:build': 5000, 'contract_evals:parse': 5000, 'contract_evals:accept': 100,
             'lenclass:0': 2, 'lenclass:1-125': 4, 'lenclass:126-65535': 4, 'lenclass:>=65536': 2,
             'distinct:combos': 256, 'masked': 4, 'unmasked': 4,
-            'seq:text': 10, 'seq:reuse-build': 10, 'seq:reuse-parse': 10}
+            'seq:text': 10, 'seq:reuse-build': 10, 'seq:reuse-parse': 10,
+            'web_handshakes': 40, 'web_reads_judged': 100, 'web_frames_judged': 300, 'web_frames_per_read:3+': 40}
 
 
 if __name__ == '__main__':
